@@ -258,6 +258,26 @@ def check_steppers(run, ex, jnp, rng, tier):
                             run.violation(dict(key, what="normalized != physical", interface=nn), {"N": N, "L": L, "dt": dt, "err": e2})
                         if e3 > 1e-10:
                             run.violation(dict(key, what="difficulty != physical", interface=dn), {"N": N, "L": L, "dt": dt, "err": e3})
+                    # the same three interfaces on a very large and a very small box (normalized coefficients a dt / L^j down to 1e-13 and up to 1e+7
+                    # are legitimate values, not "inactive" terms); one order per pair
+                    if nn is not None and order in (None, 2) and D <= 2:
+                        for L2, dt2 in ((300.0, 0.01), (0.02, 1e-6 if D == 1 else 1e-5)):
+                            try:
+                                ph = registry.make(gname, D, N, L=L2, dt=dt2, order=order, **gkw)
+                                (nn2, nkw2), (dn2, dkw2) = to_normalized(gname, gkw, D, N, L2, dt2, M=1.5)
+                                b2 = np.asarray(ph(u))
+                                e5 = rel(registry.make(nn2, D, N, order=order, **nkw2)(u), b2)
+                                e6 = rel(registry.make(dn2, D, N, order=order, **dkw2)(u), b2)
+                            except Exception as e:  # noqa: BLE001
+                                run.violation(dict(key, what="extreme box: raised"), {"L": L2, "dt": dt2, "exc": repr(e)[:300]})
+                                continue
+                            run.case(("pair-extreme", sname, str(skw), gname, D, N, order, L2))
+                            if not np.all(np.isfinite(b2)):
+                                continue          # the white-noise state is not resolved by this step at all: nothing to compare
+                            if e5 > 1e-10:
+                                run.violation(dict(key, what="normalized != physical", interface=nn2, box="extreme"), {"N": N, "L": L2, "dt": dt2, "err": e5})
+                            if e6 > 1e-10:
+                                run.violation(dict(key, what="difficulty != physical", interface=dn2, box="extreme"), {"N": N, "L": L2, "dt": dt2, "err": e6})
                     rk = rescale(gname, gkw, 2.5, 0.4)
                     if rk is not None:
                         g2 = registry.make(gname, D, N, L=2.5 * L, dt=0.4 * dt, order=order, **rk)
